@@ -58,7 +58,7 @@ def strategy(tier):
         (1, st.just(["history"])),
         (1, st.just(["makespan"])),
         (1, st.just(["idle"])),
-        (2, st.tuples(st.just("updater"), st.sampled_from(sorted(obs.BUILDERS)), st.booleans(), st.booleans()).map(list)),
+        (2, st.tuples(st.just("updater"), gen.pick(sorted(obs.BUILDERS)), st.booleans(), st.booleans()).map(list)),
         (2, st.just(["composite"])),
     )
     return st.fixed_dictionaries(
@@ -74,7 +74,7 @@ def strategy(tier):
             "h2": gen.histories(max_len=18),
             "env": st.fixed_dictionaries(
                 {
-                    "builder": st.sampled_from(sorted(obs.BUILDERS)),
+                    "builder": gen.pick(sorted(obs.BUILDERS)),
                     "features": obs.feature_configs(min_size=1, max_size=4),
                     "reward": st.sampled_from(sorted(obs.REWARDS)),
                     "flags": st.tuples(st.booleans(), st.booleans()).map(list),
